@@ -551,6 +551,163 @@ impl Space for Thresholds {
 }
 
 // ----------------------------------------------------------------------
+// zero pivots under every regularisation configuration: "zero pivots ... are reported as errors, never as a
+// silently wrong solution" must also hold when regularisation is switched on but cannot repair the pivot
+// (threshold 0 or negative, replacement value 0), on the first pivot and on later (Schur) pivots, from
+// scratch and through update_values + refactor
+// ----------------------------------------------------------------------
+pub struct ZeroPivots {
+    pub n: usize,
+}
+const ZP_DIAG: [f64; 5] = [0.0, 1.0, -1.0, 2.0, -2.0];
+const ZP_EPS: [f64; 3] = [1e-12, 0.0, -1.0];
+const ZP_DELTA: [f64; 2] = [1e-7, 0.0];
+impl ZeroPivots {
+    #[allow(clippy::type_complexity)]
+    fn decode(&self, id: u64) -> (Dense, Vec<i8>, bool, f64, f64, bool) {
+        let n = self.n;
+        let mut d = Digits(id);
+        let enable = d.take(2) == 0;
+        let eps = *d.pick(&ZP_EPS);
+        let delta = *d.pick(&ZP_DELTA);
+        let reversed = d.take(2) == 1;
+        let mut a = Dense::zeros(n, n);
+        let mut ds = vec![1i8; n];
+        for i in 0..n {
+            a.set(i, i, *d.pick(&ZP_DIAG));
+            ds[i] = if d.take(2) == 0 { 1 } else { -1 };
+        }
+        for (i, j) in pairs(n) {
+            if d.take(2) == 1 {
+                a.set(i, j, 1.0);
+                a.set(j, i, 1.0);
+            }
+        }
+        (a, ds, enable, eps, delta, reversed)
+    }
+    /// dense reference elimination in the given order with the documented rule; None = a zero pivot remains.
+    /// second value: every intermediate quantity was a small dyadic rational (so every operation was exact)
+    fn reference(pap: &Dense, signs: &[f64], enable: bool, eps: f64, delta: f64) -> (Option<Vec<f64>>, bool) {
+        let n = pap.n;
+        let mut l = Dense::eye(n);
+        let mut dd = vec![0.0; n];
+        let mut exact = true;
+        let dyadic = |v: f64| v.abs() < 1048576.0 && (v * 1048576.0).fract() == 0.0;
+        for k in 0..n {
+            let mut dk = pap.at(k, k);
+            for j in 0..k {
+                dk -= l.at(k, j) * l.at(k, j) * dd[j];
+            }
+            exact &= dyadic(dk);
+            if enable && dk * signs[k] < eps {
+                dk = delta * signs[k];
+            }
+            if dk == 0.0 {
+                return (None, exact);
+            }
+            dd[k] = dk;
+            for i in k + 1..n {
+                let mut v = pap.at(i, k);
+                for j in 0..k {
+                    v -= l.at(i, j) * l.at(k, j) * dd[j];
+                }
+                let lik = v / dk;
+                exact &= dyadic(v) && (delta == dk.abs() || dyadic(lik));
+                l.set(i, k, lik);
+            }
+        }
+        (Some(dd), exact)
+    }
+}
+impl Space for ZeroPivots {
+    fn name(&self) -> String {
+        format!("zero-pivots-n{}", self.n)
+    }
+    fn size(&self) -> u64 {
+        let np = (self.n * (self.n - 1) / 2) as u32;
+        2 * 3 * 2 * 2 * 10u64.pow(self.n as u32) * 2u64.pow(np)
+    }
+    fn describe(&self, id: u64) -> Value {
+        let (a, ds, enable, eps, delta, reversed) = self.decode(id);
+        json!({"A": a.rows(), "Dsigns": ds, "regularize_enable": enable, "regularize_eps": eps, "regularize_delta": delta, "order": if reversed { "reversed" } else { "natural" }})
+    }
+    fn bound(&self) -> Value {
+        json!({"n": self.n, "diagonal": ZP_DIAG, "couplings": [0, 1], "Dsigns": "all", "regularize_enable": [true, false], "regularize_eps": ZP_EPS, "regularize_delta": ZP_DELTA, "orders": ["natural", "reversed"], "paths": ["factor from scratch", "update_values + refactor from a benign matrix of the same pattern"]})
+    }
+    fn run(&self, id: u64, ctx: &mut Ctx) -> CaseResult {
+        let (a, ds, enable, eps, delta, reversed) = self.decode(id);
+        let n = self.n;
+        let perm: Vec<usize> = if reversed { (0..n).rev().collect() } else { (0..n).collect() };
+        let keep = |i: usize, j: usize| i == j || (i < j && a.at(i, j) != 0.0);
+        let triu = a.triu().to_csc_masked(&keep);
+        let opts = QDLDLSettings::<f64> { perm: Some(perm.clone()), Dsigns: Some(ds.clone()), regularize_enable: enable, regularize_eps: eps, regularize_delta: delta, ..Default::default() };
+        let mut pap = Dense::zeros(n, n);
+        for i in 0..n {
+            for j in 0..n {
+                pap.set(i, j, a.at(perm[i], perm[j]));
+            }
+        }
+        let signs: Vec<f64> = (0..n).map(|i| ds[perm[i]] as f64).collect();
+        let (want, exact) = Self::reference(&pap, &signs, enable, eps, delta);
+        let what = || format!("A={:?} Dsigns={:?} enable={} eps={:e} delta={:e} perm={:?}", a.rows(), ds, enable, eps, delta, perm);
+        let judge = |r: Result<&QDLDLFactorisation<f64>, &QDLDLError>, path: &str| -> CaseResult {
+            match r {
+                Err(QDLDLError::ZeroPivot) => {
+                    ensure!(!exact || want.is_none(), "zero-pivot-reported-without-one", "{}: {} (reference pivots {:?})", path, what(), want);
+                    Ok(())
+                }
+                Err(e) => Err(Violation::new("unexpected-error-kind", format!("{}: {:?} for {}", path, e, what()))),
+                Ok(f) => {
+                    for k in 0..n {
+                        ensure!(f.D[k].is_finite() && f.D[k] != 0.0 && f.Dinv[k].is_finite(), "zero-pivot-accepted-silently", "{}: D={:?} Dinv={:?} for {}", path, f.D, f.Dinv, what());
+                    }
+                    if exact {
+                        match &want {
+                            None => return Err(Violation::new("zero-pivot-accepted-silently", format!("{}: reference elimination meets a zero pivot, D={:?} for {}", path, f.D, what()))),
+                            Some(dd) => ensure!(dd.iter().zip(&f.D).all(|(x, y)| x.to_bits() == y.to_bits()), "pivots-differ-from-exact-reference", "{}: D={:?} reference {:?} for {}", path, f.D, dd, what()),
+                        }
+                    }
+                    Ok(())
+                }
+            }
+        };
+        let direct = QDLDLFactorisation::<f64>::new(&triu, Some(opts.clone()));
+        judge(direct.as_ref(), "factor")?;
+        ctx.transitions += 1;
+        // the same matrix reached through update_values + refactor from a benign matrix of the same pattern
+        let mut benign = triu.clone();
+        for j in 0..n {
+            for p in benign.colptr[j]..benign.colptr[j + 1] {
+                if benign.rowval[p] == j {
+                    benign.nzval[p] = (4 * n + j) as f64 * ds[j] as f64;
+                }
+            }
+        }
+        if let Ok(mut f) = QDLDLFactorisation::<f64>::new(&benign, Some(opts)) {
+            let idx: Vec<usize> = (0..triu.nzval.len()).collect();
+            f.update_values(&idx, &triu.nzval);
+            let r = f.refactor();
+            ctx.transitions += 2;
+            match (&r, &direct) {
+                (Err(e), _) => judge(Err(e), "update_values+refactor")?,
+                (Ok(()), _) => judge(Ok(&f), "update_values+refactor")?,
+            }
+            ensure!(r.is_ok() == direct.is_ok(), "refactor-and-factor-disagree-on-zero-pivot", "refactor ok={} factor ok={} for {}", r.is_ok(), direct.is_ok(), what());
+            if let (Ok(()), Ok(g)) = (&r, &direct) {
+                ensure!(f.D.iter().zip(&g.D).all(|(x, y)| x.to_bits() == y.to_bits()), "refactor-not-bit-identical", "{:?} vs {:?} for {}", f.D, g.D, what());
+            }
+        }
+        ctx.outcome(match (&direct, &want) {
+            (Err(_), _) => "zero-pivot-error",
+            (Ok(f), _) if f.regularize_count() > 0 => "factored-regularised",
+            _ => "factored",
+        });
+        ctx.nontrivial += 1;
+        Ok(())
+    }
+}
+
+// ----------------------------------------------------------------------
 // space B: every vector in {0..n}^n as the permutation
 // ----------------------------------------------------------------------
 pub struct PermVectors {
@@ -1095,6 +1252,9 @@ pub fn spaces(tier: &str, seed: u64) -> Vec<Box<dyn Space>> {
         let id: Vec<usize> = (0..4).collect();
         let rev: Vec<usize> = (0..4).rev().collect();
         v.push(Box::new(Thresholds { n: 4, orders: vec![Some(id), Some(rev), Some(vec![2, 0, 3, 1]), None] }));
+    }
+    for n in 1..=(if thorough { 4 } else { 3 }) {
+        v.push(Box::new(ZeroPivots { n }));
     }
     for n in 1..=(if thorough { 7 } else { 6 }) {
         v.push(Box::new(PermVectors { n }));
